@@ -19,4 +19,13 @@ PlanConsistent ==
   LET p == InputPlan(bs) IN
   /\ \A i \in DOMAIN p.lines : Utf8Decode(ByteLines(bs, <<>>)[i]).ok
   /\ (p.poisoned <=> \E i \in DOMAIN ByteLines(bs, <<>>) : ~Utf8Decode(ByteLines(bs, <<>>)[i]).ok)
+\* the tool's log (HyCli!Prelude): one line per stage, stages in pipeline order, nothing twice
+ASSUME PreludeShape ==
+  \A sub \in {"run", "check"}, level \in 0 .. 2, verbose \in BOOLEAN, n \in 0 .. 3 :
+    LET P == Prelude(sub, level, verbose, n) IN
+    /\ P[1] = [k |-> "parsing", n |-> 1]
+    /\ (sub = "run") = (P[Len(P)].k = "running")
+    /\ \A i, j \in DOMAIN P : i # j => P[i].k # P[j].k
+    /\ (\E i \in DOMAIN P : P[i] = [k |-> "optimizing", n |-> level]) = (sub = "run" /\ level >= 1)
+    /\ (\E i \in DOMAIN P : P[i] = [k |-> "total", n |-> n]) = verbose
 =============================================================================
